@@ -545,7 +545,7 @@ def traversals(how, C):
     from sc3.base.stream import stream
     from sc3.seq.patterns.listpatterns import Pseq
     from sc3.seq.patterns.funcpatterns import Pfuncn
-    if how == 'stream':
+    if how in ('stream', 'reset1', 'reset2'):
         return [stream(C)]
     if how == 'embed':
         return [EmbedTraversal(C)]
@@ -609,10 +609,14 @@ def run_lazy(bi, c):
         ts = traversals(c['how'], C)
         alive = [True] * len(ts)
         turn = 0
+        reset_after = {'reset1': 1, 'reset2': 2}.get(c['how'], 0)
         for j in range(MAXCALLS):
-            if not any(alive):
+            if reset_after and j == reset_after:
+                ts[0].reset()           # back to the start: whatever it answered before (even its end) is forgotten
+                alive[0] = True
+            if not any(alive) and not (reset_after and j < reset_after):
                 break
-            if not alive[turn]:
+            if not alive[turn] and len(ts) > 1:
                 turn = (turn + 1) % len(ts)
             try:
                 O.append(outcome(call_next(ts[turn], inval_of(invs[j % len(invs)], ivmode))))
